@@ -114,12 +114,18 @@ func (pr *ProtoArray) CanonicalChain(anchorRoot Root, anchorSlot Slot) ([]Extend
 	}
 	chain := make([]ExtendedNodeRef, 0, len(pr.nodes))
 	index := pr.indices[head]
+	// FindHead already checked that the anchor exists
+	anchorIndex := pr.indices[NodeRef{Root: anchorRoot, Slot: anchorSlot}]
 	for index != NONE && index >= pr.indexOffset {
 		node, err := pr.getNode(index)
 		if err != nil {
 			return nil, err
 		}
 		chain = append(chain, ExtendedNodeRef{NodeRef: node.Ref, ParentRoot: node.ParentRoot})
+		if index == anchorIndex {
+			// the chain ends at the anchor, do not continue into its ancestors
+			break
+		}
 		index = node.TransitionParent
 	}
 	return chain, nil
